@@ -5,6 +5,7 @@ import J5V.Compile.AppendDeclPkg
 import J5V.Compile.AppendFresh
 import J5V.Compile.ExactProofs
 import J5V.Compile.AppendEdit
+import J5V.Compile.AppendEditSvc
 /-!
 # C13 — appending declarations never changes existing wire identities
 
@@ -217,6 +218,98 @@ theorem C13_append_field_pkg (b b' : Bundle) (pkg : Str) (fi i : Nat) (prop : Pr
         (fun f _ r _ hmem hx => hfr r.2 hx hmem)
         (fun res fs fs' hc hc' => convertFile_append_field_top res path imports E1 E2 io n ps prop ne psm fs fs' hc hc')
 
+/-- **Append a field to a request or a response — the edit itself, package level.** Path
+`[el i, method m, req]` (`rq = true`) or `[el i, method m, res]`: the `i`-th element of the file is a
+service, its `m`-th method has a request (response) and gets the property at its end. Both versions
+compiling, and the names the property exports under `<Method>Request` (`<Method>Response`) being new
+to the package: every generated file — the `.service` sub-package file with the request / response
+messages and the proto service among them — is generated again under the same name and package with
+the SAME services (every rpc: name, input, output, verb, path pattern, body, annotations), and every
+message is found again with its old fields as a prefix and its nested types kept. -/
+theorem C13_append_field_method_pkg (b b' : Bundle) (pkg : Str) (fi i m : Nat) (rq : Bool)
+    (prop : Property)
+    (he : (Edit.appendField fi [.el i, .method m, reqStep rq] prop).apply pkg b = some b')
+    (fs fs' : List FileSkel) (h : compilePkg b pkg = .ok fs) (h' : compilePkg b' pkg = .ok fs')
+    (hfresh : ∀ p path imports E1 E2 sv M1 M2 mt decl, b.find pkg = some p →
+      p.files[fi]? = some (.j5s path imports (E1 ++ [.service sv] ++ E2) decl) → E1.length = i →
+      sv.methods = M1 ++ [mt] ++ M2 → M1.length = m →
+      ∀ x ∈ newFieldExportNames (methodObjName rq mt) prop,
+        x ∉ (p.files.map sumOf).flatMap (fun s => s.exports.map (·.1))) :
+    ∀ f ∈ fs, ∃ f' ∈ fs', f.LeEdit f' := by
+  obtain ⟨p, pre, post, g, g', hf, hp, hlen, happ, hf', hother, hl⟩ := apply_edit_struct _ b pkg b' he
+  cases g with
+  | proto pth msgs enums => simp [Edit.applyFile] at happ
+  | j5s path imports elems decl =>
+    simp only [Edit.applyFile] at happ
+    obtain ⟨elems', hed, rfl⟩ := Option.map_eq_some_iff.mp happ
+    obtain ⟨E1, E2, sv, M1, M2, mt, mt', r, h1, h2, h3, h4, h5, h6⟩ :=
+      editElems_field_method prop i m rq elems elems' hed
+    subst h1; subst h2
+    have hget : p.files[fi]? = some (.j5s path imports (E1 ++ [.service sv] ++ E2) decl) := by
+      rw [hp]
+      simp only [Edit.file] at hlen
+      rw [← hlen]; simp
+    have hfr := hfresh p path imports E1 E2 sv M1 M2 mt decl hf hget h3 h4 h5
+    obtain ⟨A0, C0, hA, hB, hrefs⟩ := serviceItem_exports sv M1 M2 mt mt' rq r prop h4 h6
+    exact replace_elems_compile b b' pkg p pre post path imports _ _ decl hp hf hf' hother hl fs fs' h h'
+      (fun k => k ∉ newFieldExportNames (methodObjName rq mt) prop)
+      (fun s s' hs hs' => summary_single_item path imports E1 E2 (.service sv)
+        (.service { sv with methods := M1 ++ [mt'] ++ M2 }) (.serviceFile [sv])
+        (.serviceFile [{ sv with methods := M1 ++ [mt'] ++ M2 }]) rfl rfl A0 _ C0 hA hB hrefs
+        s s' hs hs')
+      (fun f _ r _ hmem hx => hfr r.2 hx hmem)
+      (fun res fs fs' hc hc' => convertFile_single_item res path imports E1 E2 (.service sv)
+        (.service { sv with methods := M1 ++ [mt'] ++ M2 }) (.serviceFile [sv])
+        (.serviceFile [{ sv with methods := M1 ++ [mt'] ++ M2 }]) rfl rfl rfl
+        (fun c => serviceItem_msgs c sv M1 M2 mt mt' rq r prop h4 h6)
+        (fun c => by rw [itemEnums_serviceFile, itemEnums_serviceFile])
+        (fun c => serviceItem_svcs c sv M1 M2 mt mt' rq r prop h4 h6) fs fs' hc hc')
+
+/-- **Append a field to a topic message — the edit itself, package level.** Path `[el i, msg m]`
+(`k = 0`: publish / upsert / event topics), `[el i, reqm m]` (`k = 1`) or `[el i, repm m]` (`k ≥ 2`,
+request / reply topics): the `i`-th element of the file is a topic and one of its messages gets the
+property at its end. Both versions compiling and the names the property exports under
+`<Name>Message` being new to the package (asked for every message of the topic, `topicObjName`):
+every generated file — the `.topic` sub-package file with the message types and the topic services —
+is generated again with the SAME services and every message found again with its old fields
+(including the implicit leading `request` / `upsert` metadata field) as a prefix. -/
+theorem C13_append_field_topic_pkg (b b' : Bundle) (pkg : Str) (fi i k m : Nat) (prop : Property)
+    (he : (Edit.appendField fi [.el i, topicStep k m] prop).apply pkg b = some b')
+    (fs fs' : List FileSkel) (h : compilePkg b pkg = .ok fs) (h' : compilePkg b' pkg = .ok fs')
+    (hfresh : ∀ p path imports E1 E2 t decl, b.find pkg = some p →
+      p.files[fi]? = some (.j5s path imports (E1 ++ [.topic t] ++ E2) decl) → E1.length = i →
+      ∀ tn ∈ topicNodes t, ∀ tm ∈ tn.msgs, ∀ x ∈ newFieldExportNames (topicObjName tn tm) prop,
+        x ∉ (p.files.map sumOf).flatMap (fun s => s.exports.map (·.1))) :
+    ∀ f ∈ fs, ∃ f' ∈ fs', f.LeEdit f' := by
+  obtain ⟨p, pre, post, g, g', hf, hp, hlen, happ, hf', hother, hl⟩ := apply_edit_struct _ b pkg b' he
+  cases g with
+  | proto pth msgs enums => simp [Edit.applyFile] at happ
+  | j5s path imports elems decl =>
+    simp only [Edit.applyFile] at happ
+    obtain ⟨elems', hed, rfl⟩ := Option.map_eq_some_iff.mp happ
+    obtain ⟨E1, E2, t, t', h1, h2, h3, ht⟩ := editElems_field_topic prop i k m elems elems' hed
+    subst h1; subst h2
+    obtain ⟨N1, N2, tn, tn', T1, T2, tm, n1, n2, hx⟩ := editTopic_field prop k m t t' ht
+    have hget : p.files[fi]? = some (.j5s path imports (E1 ++ [.topic t] ++ E2) decl) := by
+      rw [hp]
+      simp only [Edit.file] at hlen
+      rw [← hlen]; simp
+    have hfr := hfresh p path imports E1 E2 t decl hf hget h3 tn (by rw [n1]; simp) tm
+      (by rw [hx.1]; simp)
+    obtain ⟨A0, N, C0, hA, hB, hN, hrefs⟩ := topicItem_exports t t' N1 N2 tn tn' T1 T2 tm prop n1 n2 hx
+    exact replace_elems_compile b b' pkg p pre post path imports _ _ decl hp hf hf' hother hl fs fs' h h'
+      (fun k => k ∉ newFieldExportNames (topicObjName tn tm) prop)
+      (fun s s' hs hs' => by
+        have := summary_single_item path imports E1 E2 (.topic t) (.topic t') (.topicFile [t])
+          (.topicFile [t']) rfl rfl A0 N C0 hA hB hrefs s s' hs hs'
+        exact ⟨fun X Y k hk => this.1 X Y k (fun hm => hk (hN k hm)), this.2⟩)
+      (fun f _ r _ hmem hx => hfr r.2 hx hmem)
+      (fun res fs fs' hc hc' => convertFile_single_item res path imports E1 E2 (.topic t) (.topic t')
+        (.topicFile [t]) (.topicFile [t']) rfl rfl rfl
+        (fun c => topicItem_msgs c t t' N1 N2 tn tn' T1 T2 tm prop n1 n2 hx)
+        (fun c => by rw [itemEnums_topicFile, itemEnums_topicFile])
+        (fun c => topicItem_svcs c t t' N1 N2 tn tn' T1 T2 tm prop n1 n2 hx) fs fs' hc hc')
+
 /-- **Append an option — the edit itself, package level.** Let `b'` be the bundle after
 `appendOption` at a top-level enum (path `[el i]`; the edit requires the `i`-th element of the file
 to be an enum), both versions compiling up to the link step. The export entry of the enum itself
@@ -359,6 +452,43 @@ def bunE' : Bundle :=
 example : ((Edit.appendOption 0 [.el 0] b!"TWO").apply b!"foo.v1" bunE).isSome = true ∧
     (compilePkg bunE b!"foo.v1").isOk = true ∧ (compilePkg bunE' b!"foo.v1").isOk = true ∧
     [fileE, fileB].flatMap srcFileRefs = [([], b!"A")] := by
+  decide
+
+/-- …and of `C13_append_field_method_pkg`: a service with one method; a field with an inline object is
+appended to the request (`rq = true`) and a scalar to the response -/
+def fileS : SrcFile :=
+  .j5s b!"foo/v1/s.j5s" [] [.service { name := some b!"Foo", basePath := some b!"/foo", methods :=
+    [{ name := b!"GetFoo", verb := .get, path := b!"/x",
+       request := some [.mk b!"id" false false (.string [] false)],
+       response := some [.mk b!"name" false false (.string [] false)] }] }] b!"foo.v1"
+def bunS : Bundle := { pkgs := [ { name := b!"foo.v1", files := [fileS] } ] }
+def bunS' (rq : Bool) (pr : Property) : Bundle :=
+  match (Edit.appendField 0 [.el 0, .method 0, reqStep rq] pr).apply b!"foo.v1" bunS with
+  | some b => b | none => { pkgs := [] }
+
+example : ((Edit.appendField 0 [.el 0, .method 0, reqStep true] newProp).apply b!"foo.v1" bunS).isSome = true ∧
+    (compilePkg bunS b!"foo.v1").isOk = true ∧ (compilePkg (bunS' true newProp) b!"foo.v1").isOk = true ∧
+    (compilePkg (bunS' false (.mk b!"zz" false false (.bool [] false))) b!"foo.v1").isOk = true ∧
+    newFieldExportNames b!"GetFooRequest" newProp = [b!"GetFooRequest.Zz"] ∧
+    ([fileS].map sumOf).flatMap (fun s => s.exports.map (·.1)) = [b!"GetFooRequest", b!"GetFooResponse"] := by
+  decide
+
+/-- …and of `C13_append_field_topic_pkg`: a publish topic with a named message, and a request / reply
+topic; a field with an inline object is appended to the message / to the reply -/
+def fileT : SrcFile :=
+  .j5s b!"foo/v1/t.j5s" []
+    [.topic { name := b!"Foo", type := .publish [{ name := some b!"Created", props := [.mk b!"id" false false (.string [] false)] }] },
+     .topic { name := b!"Bar", type := .reqres [{ name := some b!"Do", props := [] }] [{ name := some b!"Done", props := [] }] }]
+    b!"foo.v1"
+def bunT : Bundle := { pkgs := [ { name := b!"foo.v1", files := [fileT] } ] }
+def bunT' (i k : Nat) : Bundle :=
+  match (Edit.appendField 0 [.el i, topicStep k 0] newProp).apply b!"foo.v1" bunT with
+  | some b => b | none => { pkgs := [] }
+
+example : (compilePkg bunT b!"foo.v1").isOk = true ∧ (compilePkg (bunT' 0 0) b!"foo.v1").isOk = true ∧
+    (compilePkg (bunT' 1 2) b!"foo.v1").isOk = true ∧ (bunT' 0 0).pkgs.length = 1 ∧ (bunT' 1 2).pkgs.length = 1 ∧
+    ([fileT].map sumOf).flatMap (fun s => s.exports.map (·.1)) =
+      [b!"CreatedMessage", b!"DoMessage", b!"DoneMessage"] := by
   decide
 
 end J5V.Props.C13
